@@ -373,16 +373,20 @@ async fn run_history_async(h: &History, focus: Focus, prop: &str) -> Outcome {
                 if let (Some(top), true) = (top, conns[c].alive) {
                     if top != c {
                         let mk = |i: u8| Dgram { ecn: 0, seg: None, contents: Payload { len: 3 + i as usize, fill: i } };
-                        conns[top].end.set_flush_stalled(true);
+                        // the receiver does not read: the relay's writes to it block
+                        conns[top].end.set_credits(0);
                         for i in 0..*first {
                             do_send(&conns, c, *dst, &mk(i), &mut exp, &mut sent_to, &stack, &mut sum);
                         }
                         memrelay::settle().await;
                         tokio::time::sleep(std::time::Duration::from_millis(*stall_ms as u64)).await;
-                        conns[top].end.set_flush_stalled(false);
+                        // then it reads one frame at a time while the sender keeps sending
                         for i in 0..*then {
+                            conns[top].end.add_credit();
                             do_send(&conns, c, *dst, &mk(100 + i), &mut exp, &mut sent_to, &stack, &mut sum);
+                            memrelay::settle().await;
                         }
+                        conns[top].end.set_credits(usize::MAX);
                         sum.overflow = true;
                     }
                 }
